@@ -65,7 +65,7 @@ def write_replay(pid, name, payload):
 def run_pyvc(pid, prop, tier):
     from pvf.pyvc.run import verify_family
     out = dict(obligations=[], functions=[], outside=[], crashes=[], trusted=[], assumptions=[], lemmas=[],
-               solver_time_s=0.0, by_backend={})
+               solver_time_s=0.0, by_backend={}, covers=[])
     fuel = 2
     timeout = 10000 if tier == 'quick' else 60000
     for fam in prop['families']:
@@ -84,6 +84,9 @@ def run_pyvc(pid, prop, tier):
             (out['functions'] if meta['kind'] == 'function' else out['lemmas']).append(ent)
             for r in results:
                 r['family'] = fam
+                if r['kind'] == 'cover':
+                    out['covers'].append(r)
+                    continue
                 out['obligations'].append(r)
                 out['solver_time_s'] += r['ms'] / 1000.0
                 if r['status'] == 'discharged':
@@ -118,7 +121,7 @@ def main(argv=None):
 
     # ---------------------------------------------------------------- 1. pyvc
     pv = dict(obligations=[], functions=[], outside=[], crashes=[], trusted=[], assumptions=[], lemmas=[],
-              solver_time_s=0.0, by_backend={})
+              solver_time_s=0.0, by_backend={}, covers=[])
     if prop['families'] and not a.no_pyvc:
         try:
             pv = run_pyvc(pid, prop, tier)
@@ -140,6 +143,10 @@ def main(argv=None):
             undecided.append((key, 'outside-subset: ' + why))
         if not pv['obligations'] and not fault:
             fault.append('zero obligations generated for %s' % pid)
+        # vacuity guards: preconditions and (invariant and guard) must be satisfiable
+        for cv in pv['covers']:
+            if cv['status'] == 'vacuous':
+                fault.append('vacuity guard: %s is unsatisfiable - everything after it is proved vacuously' % cv['name'])
         # vacuity: every clause of every contract must have produced an obligation
         for r in pv['obligations']:
             if r['status'] == 'discharged':
@@ -215,6 +222,8 @@ def main(argv=None):
         obligation_samples=[dict(name=r['name'], status=r['status'], solver=r['solver'], ms=r['ms'], size=r['size'])
                             for r in pv['obligations'][:8]],
         by_backend=pv['by_backend'], solver_time_s=round(pv['solver_time_s'], 2),
+        vacuity_covers=dict(total=len(pv['covers']), satisfiable=sum(c['status'] == 'covered' for c in pv['covers']),
+                            undecided=[c['name'] for c in pv['covers'] if c['status'] == 'cover-undecided']),
         undecided=[dict(name=n, reason=w) for n, w in undecided],
         outside_subset=[dict(function=k, reason=w) for k, w in pv['outside']],
         known_findings=known_lines,
